@@ -78,6 +78,17 @@ Section Fixed.
     fold_left (fstep snapshot) (template_paths fs) (Some (fun k => alookup k snapshot)).
 End Fixed.
 
+(** * Purity: configuration, images and environment are VALUES *)
+(** The render context enters the stage as a parameter of the execution oracle and the stage
+    returns the file map only. There is nothing through which a render could hand a changed
+    configuration to the next render or to the CEL filter stage that follows it: in the model that is
+    a matter of types. The Go code gets the context as maps it could write to; that it does not
+    (templateContext's JSON round trip copies them, template.go:75-88) is what the
+    `ctx_unchanged` clause of the C13 monitor tests on the implementation. *)
+Definition render_stage {C : Type} (is_template : N -> bool) (strip : N -> N)
+           (exec : C -> N -> filelist -> option N) (context : C) (fs : filelist) : option fmap :=
+  render_templates_fixed is_template strip (exec context) fs.
+
 (** * The stage before commit 10a6940 (historical) *)
 Section V0.
   Variable is_template : N -> bool.
